@@ -100,7 +100,7 @@ func stateWritesOf(p *Program, fns map[*ssa.Function]bool) []stateWrite {
 		if !strings.HasPrefix(FK(f), engine.ModPrefix) || strings.HasSuffix(f.Name(), "init") {
 			continue
 		}
-		for _, b := range f.Blocks {
+		for _, b := range engine.BlocksInl(f) {
 			for _, in := range b.Instrs {
 				switch x := in.(type) {
 				case *ssa.Store:
@@ -131,6 +131,31 @@ func stateWritesOf(p *Program, fns map[*ssa.Function]bool) []stateWrite {
 						if id := stateID(c.Args[0]); id != "" {
 							out = append(out, stateWrite{id, f, in, Short(kk)})
 						}
+						continue
+					}
+					// the ADDRESS of a field handed to code outside the module (a pointer-receiver method of a
+					// library type embedded by value — bytes.Buffer, strings.Builder, list.List … — or a function
+					// taking &field): that code may write the field
+					if g := engine.StaticFn(c); g != nil && strings.HasPrefix(FK(g), engine.ModPrefix) {
+						continue
+					}
+					if strings.HasPrefix(kk, "sync.") || strings.HasPrefix(kk, "sync/atomic.") && (strings.HasSuffix(kk, ".Load") || strings.HasSuffix(kk, ".Add") && false) {
+						continue // locks, wait groups, once: synchronisation, not data
+					}
+					for _, a := range c.Args {
+						fa, isFA := a.(*ssa.FieldAddr)
+						if !isFA {
+							continue
+						}
+						if _, isStruct := deref(fa.Type()).Underlying().(*types.Struct); !isStruct {
+							continue
+						}
+						if id := stateID(fa); id != "" {
+							out = append(out, stateWrite{id, f, in, "&field → " + Short(kk)})
+						}
+					}
+					if c.IsInvoke() {
+						continue
 					}
 				}
 			}
@@ -180,7 +205,7 @@ func noNewCrossSyncState(r *Report, p *Program, rule string) {
 	}
 	for _, f := range p.ModFuncs {
 		live := reach[f] || len(p.CallersOf(f)) > 0 || len(p.CG().Out[f]) >= 0 && f.Parent() != nil
-		for _, b := range f.Blocks {
+		for _, b := range engine.BlocksInl(f) {
 			for _, in := range b.Instrs {
 				if a, ok := in.(*ssa.Alloc); ok {
 					switch {
